@@ -301,4 +301,8 @@ def run(ctx):
                   complete=complete, random_walks=nr, real_calls=w.steps, edges_hit=len(w.edges_hit),
                   duplicate_failures_suppressed=w.dups)
         ctx.sample({'edge': res.records['EDGE'][7]})
+    # the composite life cycle (spec/Lifecycle.tla): post-processing interleaved with System edits, further PRISM objects and the
+    # three ways of solving - every result still depends on the snapshot of its own object only
+    from harness import lifecycle
+    lifecycle.run_stage(ctx, thorough, only={'ResultDependsOnSnapshotOnly', 'NoException'}, family='replay.Lifecycle.C06')
     tracecheck.postproc_traces(ctx)
